@@ -15,27 +15,27 @@ CLAIMS = {
         note="assumes A-exec (the executor runs what was spawned at the current time), the PriorityQueue contract proved in unit pq, tai_time exact; process_event/process_query (async block construction) are not under contract; sequentialised (lock elision), concurrent schedulers are covered by the monitor pass under C08",
         ref="DESIGN.md §5 C01", tech=TECH_V),
     "C06": dict(
-        text="Verus proves that Simulation::run maps UnprocessedMessages to Deadlock exactly when an observed mailbox is non-empty, listing exactly the non-empty observers with name and size in registration order, and to MessageLoss otherwise, for every observer vector and executor result (unit sim).",
-        note="the executor's message count and ChannelObserver::len are assumed (len is the mailbox length proved under C12); registration of sub-models (unit reg) see level text",
+        text="Verus proves that Simulation::run maps UnprocessedMessages to Deadlock exactly when an observed mailbox is non-empty, listing exactly the non-empty observers with name and size in registration order, and to MessageLoss otherwise, for every observer vector and executor result (unit sim); and that every model added through SimInit::add_model or BuildContext::add_submodel, to any depth, gets exactly one mailbox observer registered under its qualified name (unit reg). Kani proves Queue::len (the observed size) exact when quiescent.",
+        note="assumed, not decided: that the count handed up by the executor equals sent minus received (per-thread counters, concurrency); ProtoModel::build touches the registries only through add_submodel (private fields); A-exec",
         ref="DESIGN.md §5 C06", tech=TECH_V),
     "C07": dict(
         text="Verus proves: PriorityQueue is FIFO among equal keys (pq); scheduling inserts exactly one entry keyed (deadline, origin) (sched); a step puts all live same-(time, origin) entries into one task in queue order (sim); SeqFuture polls its futures strictly in push order (seqfut).",
         note="A-exec; origin ids of Scheduler/Context wrappers are not under contract; mailbox FIFO is C12",
         ref="DESIGN.md §5 C07", tech=TECH_V),
     "C08": dict(
-        text="Verus proves for all five GlobalScheduler::schedule_*_from: accepted iff deadline > now (read inside the critical section) and period non-zero, rejection has no effect, acceptance queues exactly the request; and termination (decreases clauses) of every loop of the stepping functions (units sched, sim).",
-        note="sequentialised; the race-freedom part is the monitor pass (unit simmon) when built; stubs assumed to terminate",
+        text="Verus proves for all five GlobalScheduler::schedule_*_from: accepted iff deadline > now (read inside the critical section) and period non-zero, rejection has no effect, acceptance queues exactly the request; and termination (decreases clauses) of every loop of the stepping functions (units sched, sim). Monitor pass (simmon, schedmon): with the queue and the time havocked at every lock acquisition, every critical section re-establishes `queue sorted, all deadlines > time, no zero period` and the time is only written under the queue lock and never decreases.",
+        note="sequentialised functional pass + monitor pass (units simmon, schedmon): queue havocked at every lock acquisition, invariant re-established at every release, time written only under the lock - valid for every interleaving of threads that follow the same lock protocol; stubs assumed to terminate; Mutex gives mutual exclusion",
         ref="DESIGN.md §5 C08", tech=TECH_V),
     "C09": dict(
         text="Verus proves that a step executes no entry found cancelled, discards cancelled heads without re-inserting periodic ones, leaves every other entry untouched, and that a keyed scheduling call returns the key observed by the queued action (units sim, sched).",
-        note="the re-check of the flag inside the model (async send_keyed_event) is not covered; flag sharing between key clones is an Arc identity (Kani harness when built)",
+        note="the re-check of the flag inside the model (async send_keyed_event) is not covered; Kani (complete, loop-free) proves that ActionKey clones / AutoActionKey / the keyed actions and their next occurrences observe one shared flag",
         ref="DESIGN.md §5 C09", tech=TECH_V),
     "C10": dict(
         text="Verus proves that every executed periodic entry (time t, period p) has exactly one successor queued at t + p in the same series with the same period, non-periodic and cancelled ones none, and that schedule_*periodic* queue the requested period (units sim, sched).",
-        note="tai_time addition assumed exact; Action::next contract assumed (Kani harness when built)",
+        note="tai_time addition assumed exact; Kani (complete, all Durations) proves that {Periodic,KeyedPeriodic}Action::next return the stored period and Once actions have no next",
         ref="DESIGN.md §5 C10", tech=TECH_V),
     "C11": dict(
-        text="Verus proves the mapping of every ExecutorError value by Simulation::run (Timeout, Panic with model name and payload, NoRecipient for SendError payloads), that every fatal error sets the terminated flag, and that step/step_until/process on a terminated simulation return Terminated without moving the time or entering the executor (unit sim).",
+        text="Verus proves the mapping of every ExecutorError value by Simulation::run (Timeout, Panic with model name and payload, NoRecipient for SendError payloads), that every fatal error sets the terminated flag, and that step/step_until/process on a terminated simulation return Terminated without moving the time or entering the executor (unit sim); the ModelId given to each model task indexes that model's own qualified name (unit reg).",
         note="that the executors produce the right ExecutorError (catch_unwind, CURRENT_MODEL_ID, timeout thread) is not decided; process_event/process_query bodies not under contract",
         ref="DESIGN.md §5 C11", tech=TECH_V),
     "C12": dict(
@@ -52,7 +52,7 @@ CLAIMS = {
         ref="DESIGN.md §5 C17", tech=TECH_V),
     "C18": dict(
         text="Verus proves that a step to a new time t calls synchronize(t) exactly once after the time write and before Executor::run (a precondition of run), that OutOfSync is returned exactly when the reported lag exceeds the configured tolerance and then the executor is not entered, and that step_until's final jump synchronises on the target (unit sim).",
-        note="SimInit::init not yet under contract; the clock is only reachable through Simulation (private field)",
+        note="SimInit::init not under contract; the clock is only reachable through Simulation (private field); step_until through several times: each new time synchronised exactly once (strictly increasing trace)",
         ref="DESIGN.md §5 C18", tech=TECH_V),
     "C20": dict(
         text="Verus proves the whole of util/indexed_priority_queue.rs (39 functions: heap order on (key, epoch), slab/heap cross-indexing, extract only through the matching epoch) and util/priority_queue.rs (stable minimum extraction) for every history, generic key type.",
